@@ -63,6 +63,10 @@ func (g *fastGenerator) genMarshalMethod() {
 			g.P("switch x := x.", fieldname, ".(type) {")
 			for _, ooField := range field.Fields {
 				g.P("case *", ooField.GoIdent, ": ")
+				// a typed-nil wrapper means the oneof is unset (size skips it as well)
+				g.P("if x == nil {")
+				g.P("break")
+				g.P("}")
 				g.marshalField(true, &numGen, ooField, true)
 			}
 			g.P("}")
